@@ -1116,29 +1116,29 @@ impl<'a> CompactionIterator<'a> {
 			let current_visibility = self.find_earliest_visible_snapshot(seq_num)?;
 
 			// Check if this version is superseded by a newer version
+			let mut hidden_from_snapshots = false;
 			let superseded = if let Some(newer_vis) = newer_version_visibility {
 				// Can we drop superseded versions in this scenario?
-				let snapshot_allows_drop = match current_visibility {
-					// Active snapshots exist - use visibility boundaries to decide
-					SnapshotVisibility::BoundedBySnapshot(_) => true,
-					SnapshotVisibility::NewerThanAllSnapshots => true,
-					// No snapshots - only drop if versioning is disabled
-					// (with versioning enabled, retention policy decides instead)
-					SnapshotVisibility::NoActiveSnapshots => !self.enable_versioning,
-				};
+				// Only without versioning. With versioning the retention policy decides
+				// which older versions go (see below), whether or not a snapshot happens
+				// to be open: an open reader must not make history lose the versions
+				// that an idle store would keep.
+				let snapshot_allows_drop = !self.enable_versioning;
 
-				// Superseded = not latest AND in same visibility boundary AND allowed to drop
-				snapshot_allows_drop
-					&& !is_latest && self.same_visibility_boundary(newer_vis, current_visibility)
+				// Hidden = not latest AND in the same visibility boundary as a newer
+				// version: no snapshot can see it. Superseded = hidden AND allowed to drop.
+				hidden_from_snapshots =
+					!is_latest && self.same_visibility_boundary(newer_vis, current_visibility);
+				snapshot_allows_drop && hidden_from_snapshots
 			} else {
 				// This is the first (newest) version - can't be superseded
 				false
 			};
 
 			// Is this version required by an active snapshot?
-			// (Only matters if not already superseded by a newer version)
+			// (Only the newest version of a visibility boundary can be)
 			let required_by_snapshot =
-				!superseded && self.must_preserve_for_snapshot(current_visibility);
+				!hidden_from_snapshots && self.must_preserve_for_snapshot(current_visibility);
 
 			// ===== DETERMINE IF ENTRY IS STALE =====
 			// Stale entries are filtered out during compaction
